@@ -183,7 +183,7 @@ class Session:
         hs = {"busy": 0, "kind": None, "ready": 1}
 
         def complete_packet(last_flag, cyc):
-            exp.append({"data": bytes(cur), "t": cyc, "race": cyc == M["last_ack_cycle"]})
+            exp.append({"data": bytes(cur), "t": cyc, "race": cyc == M["last_ack_cycle"] and len(cur) < mps})
             self.log.append((cyc, "input packet %d complete: %d bytes%s" % (len(exp) - 1, len(cur), " +ZLP" if len(cur) == mps and last_flag else "")))
             if len(cur) == mps:
                 res.bin("full_packet")
@@ -421,7 +421,7 @@ class Session:
         hin = itf.handshakes_in
         H = self.host_state
         H.update(seq=0, flow=False, nrdy_cycle=None, ev=0, delivered=0, last_dp=None, in_sync=True, acks_since_reset=0, zlp_flag=None,
-                 zlp_retried=False, prev_data=None, first_kind="in")
+                 zlp_retried=False, prev_data=None, first_kind="in", cur_zlp_standalone=False)
         try:
             yield from self.host_main(dut, exp, events, M)
         except GiveUp:
@@ -560,12 +560,16 @@ class Session:
             ans = yield from self.wait_answer(t_req)
             if ans is None:
                 unanswered_streak += 1
-                if retry:
+                if retry and H["cur_zlp_standalone"]:
+                    mech = "zlp_after_pure_ack_keeps_old_sequence_number"
+                elif retry:
                     mech = "retry_request_unanswered"
                 elif self.erdy_pending_at(t_req):
                     mech = "in_request_ignored_while_erdy_is_sent"
                 elif kind == "ack" and must_nrdy:
                     mech = "ack_with_request_unanswered_when_no_packet_buffered"
+                elif kind == "ack" and H["next"] < len(exp) and exp[H["next"]]["race"]:
+                    mech = "packet_stuck_when_last_word_accepted_in_ack_cycle"
                 elif kind == "ack":
                     mech = "ack_with_request_unanswered"
                 else:
@@ -581,7 +585,7 @@ class Session:
                 self.check_hs_endpoint("nrdy", ans[2])
                 if must_data:
                     if retry:
-                        self.violation("nrdy_instead_of_retransmission", "retry at %d" % t_req)
+                        self.violation("zlp_after_pure_ack_keeps_old_sequence_number" if H["cur_zlp_standalone"] else "nrdy_instead_of_retransmission", "retry at %d answered with NRDY" % t_req)
                         raise GiveUp()
                     e = exp[H["next"]]
                     mech = "packet_stuck_when_last_word_accepted_in_ack_cycle" if e["race"] else "nrdy_although_packet_complete"
@@ -736,7 +740,7 @@ class Session:
             self.violation("zlp_sent_again_after_retransmitted_zlp_was_acknowledged",
                            "tx_zlp at %d: the zero-length packet had been retransmitted, then acknowledged with the next sequence number" % dp["start"])
         else:
-            self.violation("zlp_sent_again_after_acknowledgement_when_zlp_followed_pure_ack",
+            self.violation("zlp_after_pure_ack_keeps_old_sequence_number",
                            "tx_zlp at %d: the full packet was acknowledged with NumP=0, the zero-length packet was sent on the next IN request, "
                            "its acknowledgement produced the zero-length packet again" % dp["start"])
         raise GiveUp()
@@ -869,12 +873,15 @@ class Session:
                 return False
             want, want_seq = exp[idx]["data"], H["seq"]
             H["first_kind"] = kind
+            H["cur_zlp_standalone"] = dp["zlp"] and kind == "in"
         single = (not dp["zlp"]) and len(dp["data"]) <= 4
         if dp["data"] != want:
             if not retry and not H["in_sync"] and dp["data"] == H["prev_data"]:
                 res.unjudged += 1           # consequence of an earlier, already reported loss of sequence synchronisation
                 return False
-            if retry:
+            if retry and H["cur_zlp_standalone"]:
+                mech = "zlp_after_pure_ack_keeps_old_sequence_number"
+            elif retry:
                 mech = "retransmission_differs"
             elif dp["zlp"] and want:
                 mech = "zlp_instead_of_data"
@@ -889,7 +896,7 @@ class Session:
             return False
         res.event("bytes_compared", max(1, len(want)))
         # did the previous acknowledgement arrive while nothing was buffered?  (only used to name a sequence mismatch)
-        after_empty_ack = (not retry) and H["acks_since_reset"] > 0 and exp[idx]["t"] > M["last_ack_cycle"]
+        after_empty_ack = (not retry) and H["acks_since_reset"] > 0 and (exp[idx]["t"] > M["last_ack_cycle"] or exp[idx]["race"])
         undriven = dp["seq"] == 0 and dp["ep"] == 0 and dp["len"] == 0
         visible = True
         if dp["zlp"]:
